@@ -198,6 +198,28 @@ def run_unit(ctx, u):
                     ctx.check(bool(torch.allclose(y2, y, rtol=1e-4, atol=1e-6 * float(y.abs().max()))), "idempotent", f"{cname}|{cfgc}|idempotent|c(c(x)) != c(x)", family=fam, scale=sc, shape=list(shape), target=tgt)
                     y3 = c(x * 3.7)
                     ctx.check(bool(torch.allclose(y3, y, rtol=1e-3, atol=1e-5 * float(y.abs().max()))), "scale invariant", f"{cname}|{cfgc}|scale invariant|c(a*x) != c(x)", family=fam, scale=sc, shape=list(shape), target=tgt)
+        # integer-valued signals in other dtypes (float64, and integer tensors where the constraint accepts them):
+        # the target power must be met all the same
+        for tgt in (2.0, 10.0, 0.3, 300.0):
+            for dt in (torch.float64, torch.int64, torch.int32, torch.int16):
+                for shape in ((5, 64), (64,), (2, 3, 16)):
+                    xi_ = torch.randint(-3, 4, shape, generator=g)
+                    xi_.view(-1)[0] = 2
+                    x = xi_.to(dt)
+                    c = (K.TotalPowerConstraint(tgt)) if kind == "total" else (K.AveragePowerConstraint(tgt))
+                    cname = "TotalPowerConstraint" if kind == "total" else "AveragePowerConstraint"
+                    ctx.case(kind, "dtype", tgt, str(dt), shape)
+                    try:
+                        y = c(x)
+                    except Exception:  # noqa: BLE001
+                        ctx.skip(f"{cname} rejects {str(dt).replace('torch.', '')} input")
+                        continue
+                    cfgc = f"{lay(shape)},real,{str(dt).replace('torch.', '')}"
+                    for xi, yi in zip(items(x.double()), items(y.double())):
+                        pout = power(yi, kind if kind == "total" else "mean")
+                        if power(xi, "mean") >= 1e-4:
+                            ctx.check(abs(pout - tgt) <= 1e-3 * tgt, "power:equal within 0.1%", f"{cname}|{cfgc}|power:equal within 0.1%|differs", target=tgt, measured=pout, shape=list(shape))
+                            ctx.check(ratio_ok(xi, yi), "positive real scaling", f"{cname}|{cfgc}|positive real scaling|not a positive real multiple", shape=list(shape))
         ctx.sample({"unit": u["unit"], "targets": targets, "shapes": [list(s) for s in shapes], "families": FAMILIES, "scales": scales})
         return
 
